@@ -1205,6 +1205,7 @@ def parse_int(seq, is_str):
 # mask_payload's slicing (`data[r::4] = data[r::4].translate(t)`) can do to it; anything else is an EngineLimit.
 
 class SymLenBase(object):
+    _sx_abstract_buffer = True
     pass
 
 
